@@ -466,7 +466,7 @@ class VM:
                     elif isinstance(value, JSObject):
                         obj._prototype = value
                 else:
-                    obj.set(key_str, value)
+                    obj.define_value(key_str, value)
             self.stack.append(obj)
 
         elif op == OpCode.BUILD_REGEX:
@@ -696,7 +696,7 @@ class VM:
             if not isinstance(obj, JSObject):
                 raise JSTypeError("Cannot use 'in' operator on non-object")
             key_str = to_string(key)
-            self.stack.append(obj.has(key_str))
+            self.stack.append(obj.holder(key_str) is not None)
 
         # Control flow
         elif op == OpCode.JUMP:
@@ -774,12 +774,8 @@ class VM:
             obj = self.stack.pop()
             if obj is UNDEFINED or obj is NULL:
                 keys = []
-            elif isinstance(obj, JSArray):
-                # For arrays, iterate over numeric indices as strings
-                keys = [str(i) for i in range(len(obj._elements))]
-                # Also include any non-numeric properties
-                keys.extend(obj.keys())
             elif isinstance(obj, JSObject):
+                # Own enumerable keys (for arrays: the indices, then the rest)
                 keys = obj.keys()
             else:
                 keys = []
@@ -1156,19 +1152,16 @@ class VM:
             return UNDEFINED
 
         if isinstance(obj, JSObject):
-            # Check for getter first
-            getter = obj.get_getter(key_str)
-            if getter is not None:
-                return self._invoke_getter(getter, obj)
-            # Check own property
-            if obj.has(key_str):
-                return obj.get(key_str)
-            # Check prototype chain
-            proto = getattr(obj, "_prototype", None)
-            while proto is not None:
-                if isinstance(proto, JSObject) and proto.has(key_str):
-                    return proto.get(key_str)
-                proto = getattr(proto, "_prototype", None)
+            # Own property first, then the prototype chain; accessors run with
+            # the receiver as this
+            holder = obj.holder(key_str)
+            if holder is not None:
+                if holder.is_accessor(key_str):
+                    getter = holder._getters.get(key_str)
+                    if getter is None:
+                        return UNDEFINED
+                    return self._invoke_getter(getter, obj)
+                return holder.get_own(key_str)
             # Built-in Object methods as fallback
             if key_str in ("toString", "hasOwnProperty"):
                 return self._make_object_method(obj, key_str)
@@ -1549,8 +1542,8 @@ class VM:
             return "[object Object]"
 
         def hasOwnProperty_fn(*args):
-            key = to_string(args[0]) if args else ""
-            return obj.has(key)
+            key = to_string(args[0]) if args else "undefined"
+            return obj.has_own(key)
 
         methods = {
             "toString": toString_fn,
@@ -2470,19 +2463,21 @@ class VM:
                 pass  # Not a number, allow as string property
             obj.set(key_str, value)
         elif isinstance(obj, JSObject):
-            # Check for setter
-            setter = obj.get_setter(key_str)
-            if setter is not None:
-                self._invoke_setter(setter, obj, value)
-            else:
-                obj.set(key_str, value)
+            # An accessor found before any data property takes the assignment
+            holder = obj.holder(key_str)
+            if holder is not None and holder.is_accessor(key_str):
+                setter = holder._setters.get(key_str)
+                if setter is not None:
+                    self._invoke_setter(setter, obj, value)
+                return
+            obj.set(key_str, value)
 
     def _delete_property(self, obj: JSValue, key: JSValue) -> bool:
         """Delete property from object."""
         if isinstance(obj, JSObject):
             key_str = to_string(key) if not isinstance(key, str) else key
             return obj.delete(key_str)
-        return False
+        return True
 
     def _invoke_getter(self, getter: Any, this_val: JSValue) -> JSValue:
         """Invoke a getter function and return its result."""
